@@ -378,6 +378,74 @@ func c13Writers(scen string, bound int) vh.Unit {
 	}}
 }
 
+// an operation that keeps losing its commit race: after any number of conflicts in a row it either
+// reports an error and has changed nothing, or reports success and the change is there (and is
+// still there after close and reopen) - acknowledged means applied
+func c13LostCommitRaces() vh.Unit {
+	return vh.Unit{Name: "lost-commit-races", Run: func(u *vh.U) {
+		vsched.SetVirtualClock(true)
+		ops := []string{"set b cl", "upd a b 7", "addnb a 5", "link W1 a", "addab W1 -7", "nonce a n"}
+		for _, op := range ops {
+			for _, k := range []int{0, 1, 2, 5, 31, 32, 33, 64, 200} {
+				if u.Expired() {
+					return
+				}
+				dir := vh.Scratch("c13r-")
+				func() {
+					defer os.RemoveAll(dir)
+					vsched.ResetClock(0)
+					st, err := vh.OpenBadgerDir(dir)
+					if err != nil {
+						u.R.Infra = err.Error()
+						return
+					}
+					for _, pre := range []string{"set a hg", "set b cl", "addnb a 40", "addab W1 2"} {
+						vh.ApplyStoreOp(st, pre)
+					}
+					before := vh.BadgerDump(st)
+					// what the operation does when nothing interferes
+					refDir := vh.Scratch("c13q-")
+					defer os.RemoveAll(refDir)
+					ref, _ := vh.OpenBadgerDir(refDir)
+					for _, pre := range []string{"set a hg", "set b cl", "addnb a 40", "addab W1 2"} {
+						vh.ApplyStoreOp(ref, pre)
+					}
+					wantRes := vh.ApplyStoreOp(ref, op)
+					want := vh.BadgerDump(ref)
+					ref.Close()
+					vh.InjectBadgerConflicts(k)
+					res := vh.ApplyStoreOp(st, op)
+					vh.InjectBadgerConflicts(0)
+					after := vh.BadgerDump(st)
+					st.Close()
+					st2, err := vh.OpenBadgerDir(dir)
+					if err != nil {
+						u.Violate("conflicts/reopen-failed", fmt.Sprintf("%q after %d lost commit races: %v", op, k, err), nil)
+						return
+					}
+					reopened := vh.BadgerDump(st2)
+					st2.Close()
+					u.R.Evaluations++
+					u.R.States++
+					u.R.Transitions++
+					u.R.Traces++
+					u.Observe(fmt.Sprintf("%s k=%d -> %s applied=%v", strings.Fields(op)[0], k, res, after != before))
+					desc := fmt.Sprintf("%q losing its first %d commit races", op, k)
+					switch {
+					case res == wantRes && after != want:
+						u.Violate("conflicts/acknowledged-but-not-applied", fmt.Sprintf("%s: returned %q like an undisturbed run, but the database is not what an undisturbed run leaves (unchanged: %v)", desc, res, after == before), nil)
+					case res != wantRes && after != before:
+						u.Violate("conflicts/failed-but-applied", fmt.Sprintf("%s: returned %q, yet the database changed", desc, res), nil)
+					case reopened != after:
+						u.Violate("conflicts/lost-on-reopen", fmt.Sprintf("%s: the database differs after close and reopen", desc), nil)
+					}
+				}()
+			}
+		}
+		u.Sample("six operations x {0,1,2,5,31,32,33,64,200} injected ErrConflict at commit")
+	}}
+}
+
 // migration of older formats, and reopening a current database
 func c13Migration() vh.Unit {
 	return vh.Unit{Name: "migration", Run: func(u *vh.U) {
@@ -587,7 +655,7 @@ func init() {
 			if tier == "thorough" {
 				bound = 3
 			}
-			us = append(us, c13Readers("link W1 a", bound), c13Readers("upd a b 9", bound), c13Migration(), c13ModelValidation())
+			us = append(us, c13Readers("link W1 a", bound), c13Readers("upd a b 9", bound), c13Migration(), c13ModelValidation(), c13LostCommitRaces())
 			for _, scen := range []string{"credit-vs-link", "credit-vs-link-vs-acct", "two-links", "link-vs-reregister", "peers-vs-reregister"} {
 				us = append(us, c13Writers(scen, bound))
 			}
